@@ -25,7 +25,9 @@ Requested4(req, c) == ~req.prl.has \/ c \in req.prl.set       \* an absent list 
 Explicit4(req, c)  == req.prl.has /\ c \in req.prl.set         \* ... except where the client must opt in explicitly
 Requested6(req, c) == c \in req.oro
 
-Pass(S)  == [nil |-> FALSE, stop |-> "no",  sets |-> S]
+\* "any": the properties say nothing about whether a plain option plugin ends the chain
+Pass(S)  == [nil |-> FALSE, stop |-> "any", sets |-> S]
+Go(S)    == [nil |-> FALSE, stop |-> "no",  sets |-> S]
 Drop     == [nil |-> TRUE,  stop |-> "yes", sets |-> {}]
 
 (* cfg: what the accepted configuration contains: [tftp : BOOLEAN] for nbp *)
@@ -44,7 +46,7 @@ Expect4(pl, cfg, req, pre) ==
     [] pl = "lease_time"    -> Pass(IF pre.lease THEN {} ELSE {51})            \* only when no lease time is set yet
     [] pl = "ipv6only"      -> IF Explicit4(req, 108)
                                THEN [nil |-> FALSE, stop |-> "yes", sets |-> {108}]   \* sent, and processing stops before any address
-                               ELSE Pass({})
+                               ELSE Go({})                                     \* ... only to clients that list it
     [] pl = "autoconfigure" -> IF pre.type = "offer" /\ ~pre.yi
                                THEN IF req.ac THEN Pass({116}) ELSE Drop      \* address-less OFFER: only for clients that sent 116
                                ELSE Pass({})
